@@ -85,6 +85,8 @@ CALLS = {
     "n:ok": ({"op": "call", "k": 0, "m": "n"}, {}),
     "n:post": ({"op": "call", "k": 0, "m": "n"}, {4: "F"}),
     "n1:post": ({"op": "call", "k": 1, "m": "n"}, {4: "F"}),
+    # the constructor of the EXISTING shared object is run again (obj.__init__()): a checked constructor call in flight
+    "reinit": ({"op": "reinit", "k": 0}, {}),
     "new": ({"op": "new", "cls": 0, "k": 2}, {}),
     "new:inv": ({"op": "new", "cls": 0, "k": 2}, {5: "F"}),
 }
@@ -108,7 +110,7 @@ class Sched:
 def make_op(name, ti):
     op, _ = CALLS[name]
     op = dict(op)
-    if op["op"] != "new":
+    if op["op"] not in ("new", "reinit"):
         op["args"] = {"x": "a:t%d" % ti}
     else:
         op["args"] = {}
@@ -209,6 +211,10 @@ def run_async_schedule(loaded, names, mode, schedule):
                             t["coro"] = getattr(loaded.mod, t["op"]["f"])(**kw)
                         elif t["op"]["op"] == "call":
                             t["coro"] = getattr(ex.inst[t["op"]["k"]], t["op"]["m"])(**kw)
+                        elif t["op"]["op"] == "reinit":
+                            t["done"] = True
+                            t["out"] = classify(loaded, run, lambda: ex.inst[t["op"]["k"]].__init__())
+                            return
                         else:
                             # a constructor is synchronous: it runs in one step
                             t["done"] = True
@@ -297,7 +303,7 @@ def run_thread_schedule(loaded, names, mode, schedule):
 
             # threads can also be switched INSIDE an invariant's condition (it is synchronous: no switch point for tasks)
             for key in (("cond", 1), ("cond", 2), ("cond", 3), ("cond", 4), ("cond", 5), ("cond", 6), ("cap", 1), ("body", "f0"),
-                        ("body", "K0.m"), ("body", "K0.n")):
+                        ("body", "K0.m"), ("body", "K0.n"), ("body", "K0.__init__")):
                 run.hooks[key] = gate_hook(None)
 
             repr_gate = gate_hook(None)
@@ -326,6 +332,8 @@ def run_thread_schedule(loaded, names, mode, schedule):
                         fn = lambda: getattr(loaded.mod, op["f"])(**kw)
                     elif op["op"] == "call":
                         fn = lambda: getattr(ex.inst[op["k"]], op["m"])(**kw)
+                    elif op["op"] == "reinit":
+                        fn = lambda: ex.inst[op["k"]].__init__()
                     else:
                         fn = lambda: getattr(loaded.mod, "K0")()
                     state["outs"][i] = classify(loaded, run, fn)
@@ -438,12 +446,12 @@ def check_scenario(ctx, names, mode, is_async, schedules):
                 return
 
 
-SEGMENTS = {"f0:ok": 5, "f0:pre": 3, "f0:pre6": 2, "f0:post": 5, "m:ok": 3, "m:pre": 2, "m:inv": 1, "n:ok": 3, "n:post": 3, "n1:post": 3,
+SEGMENTS = {"reinit": 1, "f0:ok": 5, "f0:pre": 3, "f0:pre6": 2, "f0:post": 5, "m:ok": 3, "m:pre": 2, "m:inv": 1, "n:ok": 3, "n:post": 3, "n1:post": 3,
             "new": 1, "new:inv": 1}
 
 
 # threads are also switched inside the (synchronous) invariant: one more segment per evaluation
-SEGMENTS_THREADS = dict(SEGMENTS, **{"m:ok": 5, "m:pre": 3, "m:inv": 2, "n:ok": 5, "n:post": 5, "n1:post": 5, "new": 2, "new:inv": 2})
+SEGMENTS_THREADS = dict(SEGMENTS, **{"m:ok": 5, "m:pre": 3, "m:inv": 2, "n:ok": 5, "n:post": 5, "n1:post": 5, "new": 3, "new:inv": 3, "reinit": 3})
 
 
 def segments(name, is_async):
@@ -468,6 +476,8 @@ FIXED = [
     (["new:inv", "m:ok"], True), (["f0:ok", "f0:pre"], False), (["m:ok", "n:post"], False), (["f0:post", "f0:ok"], False),
     # one thread is inside the invariant's condition (of the same or of another object) when the other one's is due
     (["m:ok", "m:inv"], False), (["n1:post", "m:inv"], False), (["new", "m:inv"], False), (["m:ok", "new:inv"], False),
+    # the constructor of the shared object is in flight in one thread while another thread uses the object
+    (["reinit", "m:inv"], False), (["reinit", "n:post"], False), (["reinit", "m:pre"], False),
 ]
 
 
